@@ -134,3 +134,61 @@ func describeSeqs(b blockRec) string {
 func TestC11(t *testing.T) { propC11.run(t, []string{"OSAP"}) }
 
 func init() { replayers["C11"] = propC11.replayer() }
+
+// TestC11Enum: small-scope enumeration. Every string over {a,b} up to a length
+// ($VERIF_C11_AB, default 15) and over {a,b,c} up to $VERIF_C11_ABC (default 9)
+// is parsed by OSAP (MinMatchLen 3 and 2, one block) and the cost of the block
+// is compared with the exact optimum.
+func TestC11Enum(t *testing.T) {
+	st := statsFor("C11")
+	cnt := 0
+	run := func(k, maxN, minM int) {
+		cfg := PCfg{Kind: "OSAP", BufferSize: 64, WindowSize: 64, BlockSize: 64, MinMatchLen: minM}
+		p, err := cfg.LZ().NewParser()
+		if err != nil {
+			t.Fatalf("config rejected: %v", err)
+		}
+		cc := cfg.Completed()
+		var blk lz.Block
+		failed := false
+		enumStrings(k, maxN, func(s []byte) {
+			if failed || len(s) == 0 {
+				return
+			}
+			text := make([]byte, len(s))
+			for i, c := range s {
+				text[i] = 'a' + c
+			}
+			cnt++
+			_ = p.Reset(nil)
+			if _, err := p.Write(text); err != nil {
+				t.Errorf("Write: %v", err)
+				failed = true
+				return
+			}
+			n, err := p.Parse(&blk, 0)
+			if err != nil || n != len(text) {
+				return // other properties' business
+			}
+			got := uint64(len(blk.Literals)) * lz.XZCost(1, 0)
+			for _, q := range blk.Sequences {
+				got += lz.XZCost(q.MatchLen, q.Offset)
+			}
+			if opt := optimalCost(text, 0, 0, n, cc.WindowSize, cc.MinMatchLen, cc.MaxMatchLen); got != opt {
+				c := ParserCase{Cfg: cfg, Ops: []POp{{Op: "write", Data: cloneBytes(text)}, {Op: "parse"}}}
+				msg := fmt.Sprintf("%q (MinMatchLen %d): cost %d bits, the optimum is %d bits (%d literals, sequences %v)", text, cc.MinMatchLen, got, opt, len(blk.Literals), blk.Sequences)
+				recordFailure("C11", "enum", c, msg)
+				t.Errorf("C11 violated (enumeration): %s", msg)
+				failed = true
+			}
+		})
+	}
+	ab, abc := envInt("VERIF_C11_AB", 15), envInt("VERIF_C11_ABC", 9)
+	run(2, ab, 3)
+	run(3, abc, 3)
+	run(2, minInt(ab, 12), 2)
+	run(3, minInt(abc, 7), 2)
+	st.evalN(cnt, "enumerated")
+	st.note("enumerated all strings over {a,b} up to length %d and over {a,b,c} up to length %d through OSAP with MinMatchLen 3 (and, three resp. two letters shorter, MinMatchLen 2) against the exact optimum", ab, abc)
+	fmt.Printf("ENUM-DONE %d\n", cnt)
+}
